@@ -260,7 +260,10 @@ var specExtreme = pbt.Register(&pbt.Spec[Case]{
 		"3*2^61, 0x5555555555555556, values that fall inside the bounds after truncation to 32 bits or after dropping the sign bit, MaxInt/stride and 2^64/stride and their neighbours " +
 		"(where coordinate*stride overflows to a negative / to a small non-negative number). Every one of these calls must panic and leave the whole grid unchanged; " + rule,
 	Enum: func(shard, shards int, tier string, yield func(Case) bool) {
-		for _, s := range extremeShapes(tier) {
+		for i, s := range extremeShapes(tier) {
+			if i%shards != shard {
+				continue
+			}
 			ctor := 0
 			ok := extremeScripts(s[0], s[1], func(ops []Op) bool {
 				ctor++
